@@ -57,6 +57,12 @@ static Verdict run_c07(const Case &c)
         got = wapi::hash_string_reuse(alg, decoy, m);
         v.classes.push_back("reused_hasher_object");
       }
+      else if (c.geti("inplace"))
+      {
+        // the caller's result buffer overlaps the message (digest over the message start / tail, b = H(b))
+        got = wapi::hash_string_inplace(alg, m, (size_t)c.geti("outoff"));
+        v.classes.push_back((uint64_t)c.geti("outoff") < len ? "result_buffer_overlaps_message" : "result_buffer_adjacent_to_message");
+      }
       else
         got = wapi::hash_string(alg, m);
       want = ref::hash(alg, m);
@@ -144,6 +150,14 @@ static Case gen_c07()
     c.seti("reuse", 1);
     c.seti("decoylen", g::oneof<long>({0, 1, 55, 56, 63, 64, 65, 119, 120, 200}));
   }
+  else if (!file && g::coin(15))
+  {
+    c.seti("inplace", 1);
+    long hl = wapi::hash_len((int)c.geti("alg"));
+    long L = (long)len;
+    long k = g::range(0, 5);
+    c.seti("outoff", k == 0 ? 0 : k == 1 ? std::max(0L, L - hl) : k == 2 ? L : k == 3 ? std::max(0L, L - 1) : g::range(0, L + 1));
+  }
   c.set("pseed", std::to_string(g::u64()));
   c.seti("pstyle", g::range(0, 10) < 8 ? 0 : g::range(1, 4));
   return c;
@@ -169,6 +183,23 @@ static void fixed_c07(Ctx &ctx)
           c.seti("len", len);
           c.set("pseed", std::to_string(1000 + len));
           c.seti("pstyle", style);
+          eval_fixed(*p, ctx, c);
+        }
+    // (a') the result buffer inside the message: every offset for a few lengths
+    for (int alg = 0; alg < 3; alg++)
+      for (int len : {1, 16, 20, 32, 55, 56, 64, 100, 130})
+        for (int off = 0; off <= len; off++)
+        {
+          if (!mine(ctx, i++))
+            continue;
+          Case c;
+          c.seti("alg", alg);
+          c.set("entry", "string");
+          c.seti("len", len);
+          c.set("pseed", std::to_string(7000 + len));
+          c.seti("pstyle", 0);
+          c.seti("inplace", 1);
+          c.seti("outoff", off);
           eval_fixed(*p, ctx, c);
         }
     // (c) file entry point: refill sizes x lengths around refill / block boundaries x prefix block
